@@ -2,6 +2,7 @@ package sx
 
 import (
 	"fmt"
+	"sort"
 	"time"
 	"go/token"
 	"go/types"
@@ -1004,6 +1005,52 @@ func init() {
 		}
 		cell := value(structure{parent, key, args[2]})
 		return iface{t: types.NewPointer(w.namedType("context", "valueCtx")), v: &cell}
+	}
+
+	// OTel attribute sets are built with reflect.ArrayOf; they are only ever used here as opaque,
+	// comparable map keys, so NewSet is modelled by an injective canonical encoding of its
+	// (sorted, last-value-wins) key/values.
+	S["go.opentelemetry.io/otel/internal/attribute.StringSliceValue"] = func(w *Worker, fr *frame, fn *ssa.Function, args []value) value {
+		src, _ := args[0].([]value)
+		cp := make([]value, len(src))
+		copy(cp, src)
+		return iface{t: types.NewSlice(types.Typ[types.String]), v: cp}
+	}
+	S["go.opentelemetry.io/otel/attribute.NewSet"] = func(w *Worker, fr *frame, fn *ssa.Function, args []value) value {
+		kvs, _ := args[0].([]value)
+		enc := map[string]string{}
+		var keys []string
+		for _, kv := range kvs {
+			st := kv.(structure)
+			key := w.goString(st[0])
+			val := st[1].(structure) // vtype, numeric, stringly, slice
+			var sb strings.Builder
+			fmt.Fprintf(&sb, "t%v|n%v|", val[0], val[1])
+			str := w.goString(val[2])
+			fmt.Fprintf(&sb, "s%d:%s|", len(str), str)
+			if sl, ok := val[3].(iface); ok && sl.t != nil {
+				if elems, ok := sl.v.([]value); ok {
+					fmt.Fprintf(&sb, "l%d", len(elems))
+					for _, e := range elems {
+						es := w.goString(e)
+						fmt.Fprintf(&sb, "[%d:%s]", len(es), es)
+					}
+				} else {
+					panic(unsupported{"attribute.NewSet: unsupported slice value"})
+				}
+			}
+			if _, dup := enc[key]; !dup {
+				keys = append(keys, key)
+			}
+			enc[key] = sb.String()
+		}
+		sort.Strings(keys)
+		var canon strings.Builder
+		for _, k := range keys {
+			fmt.Fprintf(&canon, "%d:%s=%s;", len(k), k, enc[k])
+		}
+		// Set{equivalent: Distinct{iface: <canonical string>}}
+		return structure{structure{iface{t: types.Typ[types.String], v: canon.String()}}}
 	}
 
 	// errors
